@@ -23,11 +23,11 @@ def run(tier, seed, t0):
     nm = T(tier, 30000, 2000000); nt = T(tier, 150, 5000)
     for cfg in ("c1d0", "c0d0", "c2d0"):
         R.run_inv(Inv("contact", nm, "plain", cfg, args=["--mode=micro"], timeout=T(tier, 1800, 6 * 3600), tag="micro/%s" % cfg), seed, wd, m)
-        R.run_inv(Inv("contact", nt, "plain", cfg, args=["--mode=tissue", "--max_cells=6"], threads=2, first=500000, timeout=T(tier, 1800, 6 * 3600), tag="tissue/%s" % cfg), seed, wd, m)
+        R.run_inv(Inv("contact", nt, "plain", cfg, args=["--mode=tissue", "--max_cells=6", "--prefer_c07=1"], threads=2, first=500000, timeout=T(tier, 1800, 6 * 3600), tag="tissue/%s" % cfg), seed, wd, m)
     R.run_inv(Inv("contact", nm // 10, "asan", "c1d0", args=["--mode=micro"], first=nm, timeout=T(tier, 1800, 6 * 3600), tag="micro/c1d0/asan"), seed, wd, m)
     # dense clusters, 16 threads, repeated evaluation: a lost update in the concurrent force accumulation shows as a net force now and then
     for cfg in ("c1d0", "c0d0", "c2d0"):
-        R.run_inv(Inv("contact", T(tier, 6, 200), "plain", cfg, args=["--mode=tissue", "--dense=1", "--max_cells=20", "--no_epi_pairs=1", "--repeat=%d" % T(tier, 12, 40)], threads=16, shards=1, first=700000,
+        R.run_inv(Inv("contact", T(tier, 6, 200), "plain", cfg, args=["--mode=tissue", "--dense=1", "--max_cells=20", "--no_epi_pairs=1", "--prefer_c07=1", "--repeat=%d" % T(tier, 12, 40)], threads=16, shards=1, first=700000,
                       timeout=T(tier, 1800, 6 * 3600), tag="dense/%s/t16" % cfg), seed, wd, m)
     # ThreadSanitizer on tissues without two epithelial cells (the coupling code of epithelial pairs reads partner state without its lock;
     # that is outside this property): every force accumulation between interacting cells must be atomic
